@@ -312,6 +312,7 @@ func RunScenarioO(d *Driver, sc Scenario, timeout time.Duration, oracle bool) (r
 }
 
 func runScenario(d *Driver, sc Scenario, timeout time.Duration, oracle bool, res *Outcome) (*Divergence, bool, []StepObs) {
+	crumb("scenario "+sc.ID, describeScenario(sc))
 	st := GetStack(sc.Stack)
 	st.Reset()
 	if sc.Stack.L1 == "inmem" {
@@ -342,6 +343,12 @@ func runScenario(d *Driver, sc Scenario, timeout time.Duration, oracle bool, res
 	}
 	for i, s := range sc.Steps {
 		switch s.Kind {
+		case "sleep":
+			// real time passes (for handlers that read the proxy's own clock)
+			time.Sleep(time.Duration(s.Secs)*time.Second + 50*time.Millisecond)
+			descs = append(descs, fmt.Sprintf("sleep %d", s.Secs))
+			obs = append(obs, StepObs{})
+			continue
 		case "advance":
 			st.L1.Offset += s.Secs
 			st.L2.Offset += s.Secs
